@@ -3,6 +3,7 @@
 #![allow(dead_code)]
 
 mod arena;
+mod asyncs;
 mod child;
 mod events;
 mod interpose;
@@ -45,6 +46,7 @@ fn main() {
         "locks" => locks::run(&args[2], &args[3]),
         "sim" => sim::run(&args[2], &args[3]),
         "sig" => sig::run(&args[2], &args[3]),
+        "asyncs" => asyncs::run(&args[2], &args[3]),
         "selfcheck" => {
             // used by `check.py setup`: proves interposition is live
             events::open(&args[2]);
